@@ -36,6 +36,7 @@ type Node struct {
 	Default   string   `json:"default,omitempty"`
 	Keys      []string `json:"keys,omitempty"`
 	Shorthand bool     `json:"shorthand,omitempty"` // case written without a 'case' statement
+	UserOrder bool     `json:"userorder,omitempty"` // list: ordered-by user
 	MapList   bool     `json:"maplist,omitempty"`   // struct stores: back this list by a Go map
 	ValueList bool     `json:"valuelist,omitempty"` // struct-backed Reflect: a slice of struct values ([]T), not pointers
 	When      string   `json:"when,omitempty"`      // when expression (only generated for the concurrent simulator's shared schema)
@@ -297,6 +298,10 @@ func (n *Node) yang(b *strings.Builder, d int) {
 			ind(b, d+1)
 			fmt.Fprintf(b, "key \"%s\";\n", strings.Join(n.Keys, " "))
 		}
+		if n.UserOrder {
+			ind(b, d+1)
+			b.WriteString("ordered-by user;\n")
+		}
 	case Choice:
 		fmt.Fprintf(b, "choice %s {\n", n.Name)
 		if n.Default != "" {
@@ -491,6 +496,9 @@ func (g *gen) list(depth int) *Node {
 		k := g.leaf(true, g.caps.IntKeys && g.r.Chance(1, 3))
 		l.Keys = append(l.Keys, k.Name)
 		l.Children = append(l.Children, k)
+	}
+	if g.r.Chance(1, 3) {
+		l.UserOrder = true
 	}
 	if g.caps.MapLists && nk == 1 && g.r.Chance(1, 2) {
 		l.MapList = true
